@@ -1661,8 +1661,9 @@ fn c13(r: &Runner) {
             }
             // HIGH degrees with a small root: the float estimate lands on the root, the first Newton step overshoots and the
             // decreasing phase walks down one by one - the longest runs of the iteration
+            // (the cases do not depend on `a`: index i < 8 carries the i-th root, so that the eight run in parallel)
             if i < 8 {
-                for r0 in [2u32, 3, 61, 87, 100, 200, 1000, 65_537] {
+                for r0 in [[2u32, 3, 61, 87, 100, 200, 1000, 65_537][i]] {
                     let d = ((bits as f64) * 0.97 / ((r0 + 1) as f64).log2()) as usize;
                     let lo = BigUint::from(r0).pow(d as u32);
                     let hi = BigUint::from(r0 + 1).pow(d as u32);
